@@ -82,7 +82,7 @@ def rule_core(ctx):
             if verdict == ">=":
                 res.ok()
                 res.sample({"site": inst, "condition": "neighbour count >= min_points"})
-            elif verdict is None and (any(qk in g_[1] for g_ in e.guards) or any(qk in g_[1] for x in tr.events if x.kind in ("continue", "break", "ret") and x.order < e.order and x.loops and e.loops and x.loops[0][1] is e.loops[0][1] for g_ in x.guards)):
+            elif verdict is None and (any(qk in g_[1] and _is_flag(g_[3]) for g_ in e.guards) or any(qk in g_[1] and _is_flag(g_[3]) for x in tr.events if x.kind in ("continue", "break", "ret") and x.order < e.order and x.loops and e.loops and x.loops[0][1] is e.loops[0][1] for g_ in x.guards)):
                 # the insertion does stand under a test of what the neighbour query returned - a flag the helper computed
                 # (`candidate.is_core`), not a comparison written here: whether that flag is `count >= min_points` is not read
                 res.undecided("%s : core-test-form:#%d" % (key, i), "the frontier insertion is guarded by a value of the neighbour query that is not a comparison with min_points in this function (fail closed)", fn_loc(fn, e.node["ln"]))
@@ -109,7 +109,7 @@ def rule_core(ctx):
                 okskip = g[0] == "+"
             if okskip:
                 res.ok()
-            elif not isinstance(gv, Cmp) and seed_q and k(seed_q[0].val) in g[1]:
+            elif _is_flag(gv) and seed_q and k(seed_q[0].val) in g[1]:
                 res.undecided("%s : seed-skip-form" % key, "a seed is skipped under `%s`, a value of the neighbour query that is not a comparison with min_points in this function (fail closed)" % g[1][:100], fn_loc(fn, x.node["ln"]))
             else:
                 res.violate("%s : seed-skip-condition" % key, "a seed is skipped under `%s`, which is neither `already labelled` nor exactly `neighbour count < min_points`: a core point can stay unlabelled" % g[1][:100], fn_loc(fn, x.node["ln"]))
@@ -130,6 +130,17 @@ def rule_core(ctx):
         else:
             res.violate("%s : cluster-id" % key, "the cluster id is not incremented exactly once per seed, after the seed's expansion", fn_loc(fn))
     return res.finish(3)
+
+
+def _has_cmp(v):
+    if isinstance(v, Cmp):
+        return True
+    return isinstance(v, Term) and any(_has_cmp(a) for a in (v.args or ()))
+
+
+def _is_flag(v):
+    """a value that is not a comparison and contains none: a flag, field or component the callee computed"""
+    return v is not None and not _has_cmp(v)
 
 
 def rule_metric(ctx):
